@@ -70,7 +70,14 @@ func HarnessC07Component() {
 	vfsWriteFile("templates/components/plain.tw", "<plain>")
 	vfsWriteFile("templates/components/cnt.tw", "{{ n = n + 1 }}<{{ n }}>")
 	vfsWriteFile("templates/components/set.tw", "{{ t = x }}[{{ t }}]")
-	switch vChoice("page", 15) {
+	switch vChoice("page", 17) {
+	case 16: // white space, also with a comment on a line of its own, may follow a passed slot
+		g := []string{"\n", "\n{{-- c --}}\n", " {{-- c --}}", "\n\n{{-- c --}}"}[vChoice("gap-after-slot", 4)]
+		page = "A@component(\"~comp\", {t: x})@slot(\"a\")N{{ y }}@end" + g + "@slot D@end" + g + "@end" + "B"
+		want = "A<b>" + x + "</b>[N" + y + "| D]B"
+	case 15: // the component file named by a path that is not in its shortest spelling
+		page = "@component(\"components//card.v2\", {t: x})|@component(\"/components/card.v2\", {t: y})"
+		want = "<v2>" + x + "</v2>|<v2>" + y + "</v2>"
 	case 11: // an argument value that is itself an object literal (the use ends in adjacent closing braces)
 		page = "A@component(\"~usr\", {u: {n: x, m: {k: y}}})B"
 		want = "A<u>" + x + y + "</u>B"
